@@ -54,12 +54,15 @@ def verdict(fn):
 
 
 def shards(tier, seed):
-    U = [dict(n=2, k=2, T=2, labels=["x"]), dict(n=3, k=1, T=2, labels=["x", "y"])]
+    # NEAR: distinct units whose usual text renderings coincide (6 significant digits / millisecond time stamps)
+    NEAR = [[100000.1, 100000.9], [100000.2, 100000.9], [0.0001, 1], [0.0002, 1]]
+    U = [dict(n=2, k=2, T=2, labels=["x"]), dict(n=3, k=1, T=2, labels=["x", "y"]),
+         dict(n=2, k=2, T=2, labels=["x"], segs=NEAR)]
     if tier == "thorough":
         U += [dict(n=2, k=2, T=2, labels=["x", "y"]), dict(n=3, k=2, T=2, labels=["x"], sym=True)]
     tasks = []
     for u in U:
-        ns = max(1, min(48, size_G(u["n"], u["k"], u["T"], u["labels"]) // 6))
+        ns = max(1, min(48, size_G(u["n"], u["k"], u["T"], u["labels"], segs=u.get("segs")) // 6))
         for s in range(ns):
             tasks.append({"universe": u, "shard": s, "nshards": ns, "tier": tier})
     return tasks
@@ -80,7 +83,7 @@ def run(task):
     u = task["universe"]
     cap_size = 4 if task["tier"] == "quick" else 5
     for _, spec in iter_G(u["n"], u["k"], u["T"], u["labels"], shard=task["shard"], nshards=task["nshards"],
-                          sym=u.get("sym", False)):
+                          sym=u.get("sym", False), segs=[tuple(x) for x in u["segs"]] if u.get("segs") else None):
         byann = spec_by_annotator(spec)
         m = sum(len(us) for _, us in byann)
         own = {(a, x) for a, us in byann for x in us}
